@@ -38,7 +38,7 @@ func compileX(src string) (string, *vk.Verdict) {
 		return "", vk.Bad("xgo-parser-rejects", "XGo parser rejects a valid Go program: %v", r.ParseErr)
 	}
 	if r.Err != nil {
-		return "", vk.Bad("cl-rejects", "XGo compiler rejects a valid Go program: %v", r.Err)
+		return "", vk.Bad(xcl.RejectClass(r.Err), "XGo compiler rejects a valid Go program: %v", r.Err)
 	}
 	return string(r.Go), nil
 }
